@@ -191,3 +191,11 @@ def sh(cmd, timeout=None, cwd=None, env=None, input=None):
 
 def fingerprint(text):
     return hashlib.sha1(text.encode('utf8')).hexdigest()[:12]
+
+
+def only(conds):
+    """development aid: VF_ONLY=<substring> restricts a run to the obligations whose id contains it"""
+    pat = os.environ.get('VF_ONLY')
+    if not pat:
+        return conds
+    return [c for c in conds if pat in c.oid]
